@@ -355,9 +355,9 @@ class USBResetSequencer(Elaboratable):
                 with m.If(line_state_time == self._CYCLES_2P5_MICROSECONDS):
                     m.next = 'AWAIT_HOST_J'
 
-                # If our input has become something other than a K, then
+                # If our input has become something other than a K before that, then
                 # we haven't finished our sequence. We'll go back to expecting a K.
-                with m.If(self.line_state != self._LINE_STATE_FS_HS_K):
+                with m.Elif(self.line_state != self._LINE_STATE_FS_HS_K):
                     m.next = 'AWAIT_HOST_K'
 
                 # Time out if we exceed our maximum allowed duration.
@@ -397,9 +397,11 @@ class USBResetSequencer(Elaboratable):
                         m.d.usb += valid_pairs.eq(valid_pairs + 1)
                         m.next = 'AWAIT_HOST_K'
 
-                # If our input has become something other than a K, then
-                # we haven't finished our sequence. We'll go back to expecting a K.
-                with m.If(self.line_state != self._LINE_STATE_FS_HS_J):
+                # If our input has become something other than a J before that, then
+                # we haven't finished our sequence. We'll go back to expecting a J.
+                # (Not when the J has just been accepted: the pair has been counted, and counting
+                # the next J as well would complete a "pair" without any K.)
+                with m.Elif(self.line_state != self._LINE_STATE_FS_HS_J):
                     m.next = 'AWAIT_HOST_J'
 
                 # Time out if we exceed our maximum allowed duration.
